@@ -7,6 +7,8 @@ tag="$1"; shift
 S=/tmp/iso-$tag
 rm -rf $S; mkdir -p $S
 rsync -a --exclude target /repo/ $S/repo/
+# (a seeded patch may be applied to /repo's working tree at this very moment: the copy starts from the committed state)
+git -C $S/repo checkout -q -- . 2>/dev/null
 rsync -a --exclude replays /verif/ $S/verif/
 unshare -m bash -c "mount --bind $S/repo /repo && mount --bind $S/verif /verif || exit 2; cd /verif; $*" > $S/out.txt 2>&1
 rc=$?
